@@ -4,6 +4,7 @@ import DmrVerif.Model.PduFullLc
 import DmrVerif.Model.PduShort
 import DmrVerif.Model.PduRate
 import DmrVerif.Model.PduUdp
+import DmrVerif.Model.PduArgs
 
 /-!
 Line-protocol operations for the PDU / element codecs (C03).
@@ -351,5 +352,73 @@ def pduOp (op : String) (a : List String) : Option String :=
     let p ← udpParse f
     some (sBits p.enc)
   | _, _ => none
+
+/-! ### `x.encattrs <every attribute of the object>` → bits of `as_bits()` read off the whole attribute record
+(`Model/PduArgs.lean`); `-` stands for `None` / an absent value (read as 0 / empty: the format never reads it then) -/
+
+def pNatD (s : String) : Option Nat := if s == "-" then some 0 else pNat s
+def pBoolD (s : String) : Option Bool := if s == "-" then some false else pBool s
+def pIntD (s : String) : Option Int := if s == "-" then some 0 else intOfString s
+def soParseD (s : String) : Option ServiceOptions := if s == "-" then some default else soParse (args s)
+def optBits : Option Bits → String
+  | some b => sBits b
+  | none => "ERR none"
+
+def dhArgsParse : List String → Option DhArgs
+  | [dpf, crc, g, a, poc, sap, dst, src, fmf, btf, rsf, ns, fsn, cls, typ, st, ab, ddf, sarq, pad, em, ofl, pn, fmt, op, sf] => do
+    pure { dpf := ← pNatD dpf, crc := ← pBits crc, isGroup := ← pBoolD g, respReq := ← pBoolD a, padOctets := ← pNatD poc,
+           sap := ← pNatD sap, dst := ← pNatD dst, src := ← pNatD src, fmf := ← pNatD fmf, btf := ← pNatD btf,
+           rsf := ← pNatD rsf, sendSeq := ← pNatD ns, fsn := ← pNatD fsn, cls := ← pNatD cls, typ := ← pNatD typ,
+           status := ← pNatD st, appendedBlocks := ← pNatD ab, ddf := ← pNatD ddf, sarq := ← pNatD sarq,
+           bitPadding := ← pBits pad, emergency := ← pBoolD em, optionFlag := ← pNatD ofl, padNibbles := ← pNatD pn,
+           udtFormat := ← pNatD fmt, udtOpcode := ← pNatD op, sf := ← pNatD sf }
+  | _ => none
+
+def csbkArgsParse : List String → Option CsbkArgs
+  -- (a list literal of more than 32 elements is not a pattern: the first twenty as a cons chain)
+  | op :: lb :: pf :: fid :: crc :: bsa :: src :: so :: tgt :: ar :: aif :: st :: svc :: rc :: cf :: ind :: btf :: age :: gen :: lid ::
+     [nl, ldi, cto, sid, sdi, tsccas, sync, dvc, off, act, mask, sfn, nrand, reg, backoff, sys, raw, at', params] => do
+    pure { opcode := ← pNatD op, lastBlock := ← pBoolD lb, protectFlag := ← pBoolD pf, fid := ← pNatD fid, crc := ← pNatD crc,
+           bsAddress := ← pNatD bsa, sourceAddress := ← pNatD src, serviceOptions := ← soParseD so, targetAddress := ← pNatD tgt,
+           answerResponse := ← pNatD ar, additionalInformationField := ← pNatD aif, sourceType := ← pNatD st,
+           serviceType := ← pNatD svc, reasonCode := ← pNatD rc, contentFollowsPreambles := ← pBoolD cf,
+           targetIsIndividual := ← pBoolD ind, blocksToFollow := ← pNatD btf, syncAge := ← pNatD age, generation := ← pNatD gen,
+           leaderIdentifier := ← pNatD lid, newLeader := ← pNatD nl, leaderDynamicIdentifier := ← pNatD ldi,
+           channelTimingOpcode := ← pNatD cto, sourceIdentifier := ← pNatD sid, sourceDynamicIdentifier := ← pNatD sdi,
+           tsccasSupport := ← pBoolD tsccas, siteTimeslotSynchronized := ← pBoolD sync, documentVersionControl := ← pNatD dvc,
+           tsccIsOffsetTiming := ← pBoolD off, tsActiveConnection := ← pBoolD act, alohaMask := ← pNatD mask,
+           serviceFunction := ← pNatD sfn, nrandWait := ← pNatD nrand, tsccRegRequired := ← pBoolD reg,
+           tsccBackoff := ← pNatD backoff, systemIdentityCode := ← pNatD sys, rawData := ← pBytes raw,
+           announcementType := ← pNatD at', broadcastParams := ← pBits params }
+  | _ => none
+
+def flcArgsParse : List String → Option FlcArgs
+  | [pf, flco, fid, crc, so, grp, src, tgt, pe, lon, lat, fmt, len, msb, data] => do
+    pure { protectFlag := ← pBoolD pf, flco := ← pNatD flco, fid := ← pNatD fid, crc := ← pBits crc, serviceOptions := ← soParseD so,
+           groupAddress := ← pNatD grp, sourceAddress := ← pNatD src, targetAddress := ← pNatD tgt, positionError := ← pNatD pe,
+           longitudeRaw := ← pIntD lon, latitudeRaw := ← pIntD lat, dataFormat := ← pNatD fmt, dataLength := ← pNatD len,
+           dataMsb := ← pBoolD msb, data := ← pBytes data }
+  | _ => none
+
+def slcArgsParse : List String → Option SlcArgs
+  | [slco, crc, t1, t2, a1, a2] => do
+    pure { slco := ← pNatD slco, crc := ← pBits crc, ts1 := ← pNatD t1, ts2 := ← pNatD t2, addr1 := ← pBits a1, addr2 := ← pBits a2 }
+  | _ => none
+
+def pduArgsOp (op : String) (a : List String) : Option String :=
+  match op with
+  | "dh.encattrs" => do
+    let x ← dhArgsParse a
+    some (match DhArgs.enc x with | some b => sBits b | none => Err.notImplemented.toString)
+  | "csbk.encattrs" => do
+    let x ← csbkArgsParse a
+    some (sBits (CsbkArgs.enc x))
+  | "flc.encattrs" => do
+    let x ← flcArgsParse a
+    some (match FlcArgs.enc x with | some b => sBits b | none => Err.keyError.toString)
+  | "slc.encattrs" => do
+    let x ← slcArgsParse a
+    some (match SlcArgs.enc x with | some b => sBits b | none => Err.keyError.toString)
+  | _ => none
 
 end Dmr.Driver
